@@ -70,7 +70,11 @@ pub(crate) enum JumpRecordAction {
 pub(crate) enum JumpRecordKind {
     Break,
     Continue,
-    Return { return_value_on_stack: bool },
+    Return {
+        return_value_on_stack: bool,
+        /// Register that holds the return value while the finally blocks run.
+        return_value_register: Option<u32>,
+    },
 }
 
 /// This represents a local control flow handling. See [`JumpRecordKind`] for types.
@@ -145,8 +149,11 @@ impl JumpRecord {
             JumpRecordKind::Continue => compiler.patch_jump_with_target(self.label, start_address),
             JumpRecordKind::Return {
                 return_value_on_stack,
+                return_value_register,
             } => {
-                if return_value_on_stack {
+                if let Some(value) = return_value_register {
+                    compiler.bytecode.emit_set_accumulator(value.into());
+                } else if return_value_on_stack {
                     let value = compiler.register_allocator.alloc();
                     compiler.pop_into_register(&value);
                     compiler.bytecode.emit_set_accumulator(value.variable());
